@@ -1,7 +1,7 @@
 """C26 — sticky sessions are never used concurrently with or after close (vgi_rpc/http/server/_sticky.py).
 
 Generated (pure data): 1–2 sessions with TTLs, 2–3 request threads each issuing 1–2 unary calls that carry a session
-token (the harness-owned method body yields 0–2 times, may call ``ctx.close_session()``, may raise), a DELETE thread,
+token (the harness-owned method body yields 0–3 times — up to 24 in family ``lines`` —, may call ``ctx.close_session()``, may raise), a DELETE thread,
 a managed reaper thread (``registry.drain_expired()`` ticks interleaved with logical-clock advances), an optional
 admin thread (``drain_handle(app).drain()`` / ``.shutdown()``) and a thread schedule for lib/sched.py (run-length
 segments that may also advance the clock, or PCT priorities + change points + clock ticks).  Everything runs through
@@ -39,8 +39,8 @@ from lib.harness import Check, Outcome, case_hash
 
 PROPERTY = "C26"
 RULE = (
-    "Hypothesis: sessions 1–2 with ttl ∈ {2.5, 10.5, 1000.5} s, 2–3 request threads × 1–2 calls (session index, 0–2 yields "
-    "in the method body, optional ctx.close_session(), 0–1 yields after it, optional raise), DELETE thread (0–2 DELETEs), "
+    "Hypothesis: sessions 1–2 with ttl ∈ {2.5, 10.5, 1000.5} s, 2–3 request threads × 1–2 calls (session index, 0–3 yields "
+    "in the method body (0–24 in family lines), optional ctx.close_session(), 0–1 yields after it, optional raise), DELETE thread (0–2 DELETEs), "
     "reaper thread (≤4 ops from {tick = registry.drain_expired(), advance clock by 1/4/7/11/20 s}), admin thread "
     "(∅ | drain | shutdown | drain,shutdown), 0–2 yields inside state.close(), close() raising or not, and a thread "
     "schedule (run-length segments with optional clock jumps, or PCT priorities + ≤4 change points + ≤2 clock ticks) run "
@@ -76,12 +76,12 @@ _TTLS = [2.5, 10.5, 10.5, 10.5, 1000.5]
 _DTS = [1, 4, 7, 11, 20]
 
 
-def _op(n_sessions: int) -> Any:
+def _op(n_sessions: int, pres: list[int]) -> Any:
     return st.builds(
         lambda s, pre, close, post, rz: {k: v for k, v in
                                          {"s": s, "pre": pre, "close": close, "post": post, "raise": rz}.items() if v or k == "s"},
         st.integers(0, n_sessions - 1) if n_sessions > 1 else st.just(0),
-        st.sampled_from([0, 1, 1, 2, 3]),
+        st.sampled_from(pres),
         st.sampled_from([False, False, True]),
         st.sampled_from([0, 0, 1]),
         st.sampled_from([False] * 7 + [True]),
@@ -111,7 +111,9 @@ def _cases(trace: str) -> Any:
         ns = draw(st.sampled_from([1, 1, 2]))
         ttl = [draw(st.sampled_from(_TTLS)) for _ in range(ns)]
         nreq = draw(st.sampled_from([2, 2, 3]))
-        reqs = [draw(st.lists(_op(ns), min_size=1, max_size=2)) for _ in range(nreq)]
+        # a traced request passes ~85 yield points outside the method body: give the body a comparable share
+        pres = [0, 1, 1, 2, 3] if trace == "sparse" else [0, 2, 6, 12, 24]
+        reqs = [draw(st.lists(_op(ns, pres), min_size=1, max_size=2)) for _ in range(nreq)]
         dels = draw(st.lists(st.integers(0, ns - 1), max_size=2))
         reaper = draw(st.lists(st.one_of(st.just(["tick"]), st.just(["tick"]),
                                          st.sampled_from(_DTS).map(lambda d: ["adv", d])), max_size=4))
